@@ -73,3 +73,34 @@ def complex_into_real(a: 'TT', b: 'TT'):
     core = np.zeros([1, a.row_dims[0], a.col_dims[0], 1])
     core[0:a.ranks[0], :, :, 0:a.ranks[1]] = a.cores[0]
     return core
+
+
+def inner_solve(operator, initial_guess, right_hand_side):
+    # stands for solvers.sle.als (intercepted by the analysis: the exact solution of operator y = right_hand_side)
+    raise NotImplementedError
+
+
+def power_stale_denominator(operator: 'TT', initial_guess: 'TT', operator_gevp: 'TT'=None, repeats: int=10, sigma: float=0.999):
+    # the right-hand side B x_old is re-used in the denominator of the Rayleigh quotient of x_new
+    shift = operator - sigma * operator_gevp
+    x = initial_guess
+    value = 0
+    for i in range(repeats):
+        rhs = operator_gevp.dot(x)
+        x = inner_solve(shift, x, rhs)
+        x = (1 / x.norm()) * x
+        value = x.transpose(conjugate=True).dot(operator).dot(x) / x.transpose(conjugate=True).dot(rhs)
+    return value, x
+
+
+def power_good(operator: 'TT', initial_guess: 'TT', operator_gevp: 'TT'=None, repeats: int=10, sigma: float=0.999):
+    # the same iteration as the library's, written differently: unnormalised quotient, operator applied first
+    shift = operator + (-sigma) * operator_gevp
+    x = initial_guess
+    value = 0
+    for i in range(repeats):
+        y = inner_solve(shift, x, operator_gevp.dot(x))
+        ay, by = operator.dot(y), operator_gevp.dot(y)
+        value = y.transpose(conjugate=True).dot(ay) / y.transpose(conjugate=True).dot(by)
+        x = y * (1 / y.norm())
+    return value, x
